@@ -703,3 +703,103 @@ def check_c19(tier, seed, log=print):
     run.assumptions += ['partial: the model covers logos\'s decision logic (variant shapes, greedy check, nullability), not syn or rustc',
                         'inputs that are not enum items are never handed to the derive by rustc and are excluded']
     return run.finish()
+
+
+# ------------------------------------------------------------------------------------------------
+# C16: deterministic code generation
+# ------------------------------------------------------------------------------------------------
+def check_c16(tier, seed, log=print):
+    run = start('C16', tier, seed)
+    R = random.Random(seed)
+    corpus = D.corpus(seed, 50 if tier == 'quick' else 400)
+    srcs = [d.source('T') for d in corpus]
+    # a few definitions with large classes: many states, edges and LUTs (more hash-container traffic)
+    srcs += [F.enum(['#[logos(skip "[ \\t\\n]+")]'], ['#[regex("\\\\w+")] Word,', '#[regex("\\\\d+", priority = 5)] Num,', '#[regex("[\\\\p{Greek}]+")] Greek,', '#[token("λ")] Lambda,']),
+             F.enum([], ['#[regex("[a-f]+x")] A,', '#[regex("[g-m]+y")] B,', '#[regex("[n-z]+z")] C,', '#[regex("[0-4]+w")] Dd,', '#[regex("[5-9]+v")] E,', '#[regex("[!-/]+u")] Ff,']),
+             F.enum([], ['#[regex("a", priority = 1)] A,', '#[regex("[a-z]", priority = 1)] B,', '#[regex("[a-c]", priority = 1)] C,'])]
+    srcs += [c['src'] for c in F.fam_c08(R, 30)]
+    builds = {}
+    bdir = os.path.join(P.HARNESS, 'target', 'debug', 'capture')
+    builds['tailcall'] = bdir
+    p = subprocess.run(['cargo', 'build', '--offline', '-p', 'capture', '--features', 'sm', '--target-dir', os.path.join(P.HARNESS, 'target-sm')],
+                       cwd=P.HARNESS, capture_output=True, text=True, env=dict(os.environ, CARGO_NET_OFFLINE='true'))
+    if p.returncode == 0:
+        builds['state_machine'] = os.path.join(P.HARNESS, 'target-sm', 'debug', 'capture')
+    else:
+        run.violation('build', dict(stderr=p.stderr[-1500:]), no_input=True)
+    text = '\n----\n'.join(srcs) + '\n'
+    n = 0
+    nontriv = set()
+    samples = []
+    nproc = 3 if tier == 'quick' else 8
+    nthreads = 8 if tier == 'quick' else 16
+    for gen, binp in builds.items():
+        runs = []
+        for k in range(nproc):
+            o = subprocess.run([binp, '--threads', str(nthreads)], input=text, capture_output=True, text=True).stdout
+            runs.append(o)
+        table = {}
+        for k, o in enumerate(runs):
+            for ln in o.split('\n'):
+                t = ln.split(' ')
+                if len(t) >= 4 and t[0] == 'T':
+                    table.setdefault(int(t[2]), []).append((k, int(t[1]), ' '.join(t[3:])))
+        for i, outs in table.items():
+            n += len(outs)
+            vals = {v for (_, _, v) in outs}
+            if len(outs) >= 2:
+                nontriv.add((gen, i))
+            if len(vals) > 1:
+                a = outs[0]
+                b = next(x for x in outs if x[2] != a[2])
+                run.violation('nondeterministic', dict(generator=gen, definition=srcs[i], first=dict(process=a[0], thread=a[1], code_and_graph_hash=a[2]),
+                                                       other=dict(process=b[0], thread=b[1], code_and_graph_hash=b[2]),
+                                                       what='the same definition produced different output on two runs/threads (hash of generated code, hash of captured graph)',
+                                                       reproduce='printf the definition into harness capture --threads %d repeatedly' % nthreads),
+                              key='nondet|%s|%s' % (gen, srcs[i]))
+            elif len(samples) < 3:
+                samples.append(dict(generator=gen, definition=srcs[i][:200], runs=len(outs), hash=outs[0][2]))
+    # logos-cli twice, then --check
+    cli, err = build_cli()
+    cli_n = 0
+    if cli:
+        wdir = os.path.join(P.WORK, 'c16')
+        shutil.rmtree(wdir, ignore_errors=True)
+        os.makedirs(wdir)
+        for i, s_ in enumerate(srcs[:15 if tier == 'quick' else 100]):
+            inp = os.path.join(wdir, 'in%d.rs' % i)
+            open(inp, 'w').write(s_.replace('#[derive(Logos, Debug, PartialEq, Clone)]', '#[derive(Logos, Debug, PartialEq, Clone)]'))
+            outs = []
+            for k in range(2):
+                o = os.path.join(wdir, 'out%d_%d.rs' % (i, k))
+                subprocess.run([cli, inp, '--output', o], capture_output=True, text=True)
+                outs.append(open(o).read() if os.path.exists(o) else None)
+                cli_n += 1
+            chk = subprocess.run([cli, inp, '--check', '--output', os.path.join(wdir, 'out%d_0.rs' % i)], capture_output=True, text=True)
+            cli_n += 1
+            if outs[0] != outs[1] or (outs[0] is not None and chk.returncode != 0):
+                run.violation('cli-nondeterministic', dict(definition=s_, what='two logos-cli runs differ, or --check fails right after a write'), key='clinondet|' + s_)
+    # drift guard (informational): hash-container iteration sites in logos-codegen
+    sites = scan_hash_sites()
+    run.coverage.update(dict(evaluations=n + cli_n, distinct_nontrivial=len(nontriv),
+                             rule='every definition generated on %d threads in each of %d fresh processes (every HashMap gets a fresh RandomState per instance and per process), with both code generators; '
+                                  'hash of the generated code and of the captured graph must coincide across all of them; logos-cli twice plus --check; non-trivial = compared at least twice' % (nthreads, nproc),
+                             samples=samples, hash_iteration_sites=sites))
+    run.assumptions += ['partial: the theorems cover the modelled shapes of hash-container use (sort by unique key, membership, singleton test, union); that every site has one of these shapes is by inspection, listed in hash_iteration_sites',
+                        'process-level hash seeds are exercised, not enumerated']
+    return run.finish()
+
+
+def scan_hash_sites():
+    """list (file, line, text) of places that iterate a hash container; informational drift guard"""
+    out = []
+    pat = _re.compile(r'(HashMap|HashSet|state_idents|loop_masks|dfa_lookup|state_lookup|state_indexes|edge_dedup|reach_accept|child_state_types|states_set|rewrite_map)')
+    it = _re.compile(r'\.(iter|into_iter|keys|values|drain)\(\)|for .* in ')
+    base = '/repo/logos-codegen/src'
+    for dp, dn, fn in os.walk(base):
+        for f in sorted(fn):
+            if f.endswith('.rs') and f != 'verif.rs':
+                for k, ln in enumerate(open(os.path.join(dp, f)), 1):
+                    if pat.search(ln) and it.search(ln):
+                        out.append('%s:%d: %s' % (os.path.relpath(os.path.join(dp, f), base), k, ln.strip()[:100]))
+    return out
